@@ -148,23 +148,23 @@ theorem rebalInsertLoop_wf (f : Nat) : ∀ (st : PT) (T : ITree) (q : Path) (z :
           · cases d2 with
             | L =>
               simp only [ITree.subtree_L, ITree.subtree_root] at hzp; subst hzp
-              obtain ⟨st', e1, hA⟩ := insert_step_L_case3 hAt rfl f
-              exact fin st' z _ e1 hA (stop_after hA f rfl .L rfl) (by rw [hB]; tl_eq) (by rw [hB]; ids_perm)
+              obtain ⟨st', e1, hA⟩ := insert_step_L_case3 hAt rfl
+              exact fin st' z _ (e1 f) hA (stop_after hA f rfl .L rfl) (by rw [hB]; tl_eq) (by rw [hB]; ids_perm)
             | R =>
               simp only [ITree.subtree_R, ITree.subtree_root] at hzp; subst hzp
-              obtain ⟨st', e1, hA⟩ := insert_step_L_case2 hAt rfl f
-              exact fin st' p _ e1 hA (stop_after hA f rfl .L rfl) (by rw [hB]; tl_eq) (by rw [hB]; ids_perm)
-          · obtain ⟨st', e1, hA⟩ := insert_step_L_case1 hAt d2 hzp f
-            exact cont st' _ _ _ e1 hA rfl (by rw [hB]; tl_eq) (by rw [hB]; first | exact List.Perm.refl _ | ids_perm)
+              obtain ⟨st', e1, hA⟩ := insert_step_L_case2 hAt rfl
+              exact fin st' p _ (e1 f) hA (stop_after hA f rfl .L rfl) (by rw [hB]; tl_eq) (by rw [hB]; ids_perm)
+          · obtain ⟨st', e1, hA⟩ := insert_step_L_case1 hAt d2 hzp
+            exact cont st' _ _ _ (e1 f) hA rfl (by rw [hB]; tl_eq) (by rw [hB]; first | exact List.Perm.refl _ | ids_perm)
           · cases d2 with
             | L =>
               simp only [ITree.subtree_L, ITree.subtree_root] at hzp; subst hzp
-              obtain ⟨st', e1, hA⟩ := insert_step_L_case3 hAt rfl f
-              exact fin st' z _ e1 hA (stop_after hA f rfl .L rfl) (by rw [hB]; tl_eq) (by rw [hB]; ids_perm)
+              obtain ⟨st', e1, hA⟩ := insert_step_L_case3 hAt rfl
+              exact fin st' z _ (e1 f) hA (stop_after hA f rfl .L rfl) (by rw [hB]; tl_eq) (by rw [hB]; ids_perm)
             | R =>
               simp only [ITree.subtree_R, ITree.subtree_root] at hzp; subst hzp
-              obtain ⟨st', e1, hA⟩ := insert_step_L_case2 hAt rfl f
-              exact fin st' p _ e1 hA (stop_after hA f rfl .L rfl) (by rw [hB]; tl_eq) (by rw [hB]; ids_perm)
+              obtain ⟨st', e1, hA⟩ := insert_step_L_case2 hAt rfl
+              exact fin st' p _ (e1 f) hA (stop_after hA f rfl .L rfl) (by rw [hB]; tl_eq) (by rw [hB]; ids_perm)
         | R =>
           simp only [ITree.subtree_R, ITree.subtree_root] at hp
           subst hp
@@ -174,23 +174,23 @@ theorem rebalInsertLoop_wf (f : Nat) : ∀ (st : PT) (T : ITree) (q : Path) (z :
           · cases d2 with
             | R =>
               simp only [ITree.subtree_R, ITree.subtree_root] at hzp; subst hzp
-              obtain ⟨st', e1, hA⟩ := insert_step_R_case3 hAt rfl f
-              exact fin st' z _ e1 hA (stop_after hA f rfl .R rfl) (by rw [hB]; tl_eq) (by rw [hB]; ids_perm)
+              obtain ⟨st', e1, hA⟩ := insert_step_R_case3 hAt rfl
+              exact fin st' z _ (e1 f) hA (stop_after hA f rfl .R rfl) (by rw [hB]; tl_eq) (by rw [hB]; ids_perm)
             | L =>
               simp only [ITree.subtree_L, ITree.subtree_root] at hzp; subst hzp
-              obtain ⟨st', e1, hA⟩ := insert_step_R_case2 hAt rfl f
-              exact fin st' p _ e1 hA (stop_after hA f rfl .R rfl) (by rw [hB]; tl_eq) (by rw [hB]; ids_perm)
-          · obtain ⟨st', e1, hA⟩ := insert_step_R_case1 hAt d2 hzp f
-            exact cont st' _ _ _ e1 hA rfl (by rw [hB]; tl_eq) (by rw [hB]; first | exact List.Perm.refl _ | ids_perm)
+              obtain ⟨st', e1, hA⟩ := insert_step_R_case2 hAt rfl
+              exact fin st' p _ (e1 f) hA (stop_after hA f rfl .R rfl) (by rw [hB]; tl_eq) (by rw [hB]; ids_perm)
+          · obtain ⟨st', e1, hA⟩ := insert_step_R_case1 hAt d2 hzp
+            exact cont st' _ _ _ (e1 f) hA rfl (by rw [hB]; tl_eq) (by rw [hB]; first | exact List.Perm.refl _ | ids_perm)
           · cases d2 with
             | R =>
               simp only [ITree.subtree_R, ITree.subtree_root] at hzp; subst hzp
-              obtain ⟨st', e1, hA⟩ := insert_step_R_case3 hAt rfl f
-              exact fin st' z _ e1 hA (stop_after hA f rfl .R rfl) (by rw [hB]; tl_eq) (by rw [hB]; ids_perm)
+              obtain ⟨st', e1, hA⟩ := insert_step_R_case3 hAt rfl
+              exact fin st' z _ (e1 f) hA (stop_after hA f rfl .R rfl) (by rw [hB]; tl_eq) (by rw [hB]; ids_perm)
             | L =>
               simp only [ITree.subtree_L, ITree.subtree_root] at hzp; subst hzp
-              obtain ⟨st', e1, hA⟩ := insert_step_R_case2 hAt rfl f
-              exact fin st' p _ e1 hA (stop_after hA f rfl .R rfl) (by rw [hB]; tl_eq) (by rw [hB]; ids_perm)
+              obtain ⟨st', e1, hA⟩ := insert_step_R_case2 hAt rfl
+              exact fin st' p _ (e1 f) hA (stop_after hA f rfl .R rfl) (by rw [hB]; tl_eq) (by rw [hB]; ids_perm)
       · -- black parent: the loop stops
         have : rebalInsertLoop (f + 1) st z = st :=
           insert_loop_stop st z (f + 1) (by rw [hzpar, rp]; exact hcp)
